@@ -1,6 +1,8 @@
 ------------------------------ MODULE MCNested ------------------------------
 (* Exhaustive design-level check of NestedLifecycle.tla (TLC, deadlock check ON).       *)
-(* MCNested.cfg          Variant = "ok": invariants, liveness, no deadlock               *)
+(* MCNested.cfg          Variant = "ok": invariants, no deadlock                         *)
+(* MCNestedLive.cfg      Variant = "ok": liveness (every Stop returns, the clean-up       *)
+(*                       completes) under weak fairness of the code and of the gates     *)
 (* MCNestedSeed.cfg      Variant = "seed": TLC is EXPECTED to find the deadlock (Close    *)
 (*                       waits for an inner context nobody asked to stop)                *)
 (* MCNestedFirstErr.cfg  Variant = "firsterr": ClosedOnReturn is EXPECTED to fail         *)
